@@ -33,6 +33,10 @@ type channelBroker struct {
 	// get funneled into for handling
 	msgChan chan *uasc.MessageBody
 	logger  Logger
+
+	// allowed reports whether the server enabled the given security policy and mode.
+	// nil allows everything.
+	allowed func(policyURI string, mode ua.MessageSecurityMode) bool
 }
 
 func newChannelBroker(logger Logger) *channelBroker {
@@ -55,6 +59,7 @@ func (c *channelBroker) RegisterConn(ctx context.Context, conn *uacp.Conn, local
 	cfg := defaultChannelConfig()
 	cfg.Certificate = localCert
 	cfg.LocalKey = localKey
+	cfg.AllowedSecurity = c.allowed
 
 	c.mu.Lock()
 	c.secureChannelID++
@@ -109,6 +114,11 @@ outer:
 				if c.logger != nil {
 					c.logger.Error("Secure Channel %d error: %s", secureChannelID, msg.Err)
 				}
+				// tell the client why and hang up instead of leaving it waiting on an open socket
+				if status, ok := msg.Err.(ua.StatusCode); ok {
+					conn.SendError(status)
+				}
+				conn.Close()
 				break outer
 			}
 			// todo(fs): honor ctx
